@@ -269,7 +269,7 @@ def run(ctx):
 def replay(ctx, doc):
     exe, broker = build()
     bad = 0
-    for v in doc.get("violations", []):
+    for v in doc.get("violations", [])[:4]:
         case = v["replay"].get("case")
         if not case:
             continue
